@@ -276,13 +276,21 @@ func checkMain(a []string) int {
 	var samples []json.RawMessage
 	hard := false
 	crashed := 0
+	peakRSS := 0
 	for ji, o := range outs {
 		if (o.code != 0 && o.code != 1) || o.stats == nil {
 			// the shard died. If the Go runtime reports a fatal error or an
 			// unrecovered panic whose dump contains frames of the code under test,
 			// the case it was executing is reported as a violation (unshrunk);
 			// anything else is harness trouble.
-			if v := crashVerdict(prop, o.log, o.current, replayDir, seed, jobs[ji].shard); v != "" {
+			v := crashVerdict(prop, o.log, o.current, replayDir, seed, jobs[ji].shard)
+			if v == "" {
+				// no dump (e.g. killed by the kernel for lack of memory while 16 shards
+				// were running): a verdict needs a reproduction - the case is executed
+				// again, alone, in a fresh process with the memory watchdog
+				v = isolatedVerdict(prop, jobs[ji].bin, o.current, replayDir, seed, jobs[ji].shard)
+			}
+			if v != "" {
 				violations = append(violations, v)
 				vioProps = append(vioProps, prop)
 				crashed++
@@ -333,6 +341,9 @@ func checkMain(a []string) int {
 			for _, h := range o.stats.Hashes[scen] {
 				distinct[key][h] = struct{}{}
 			}
+		}
+		if v, ok := o.stats.Extra["peak_rss_mib"].(float64); ok && int(v) > peakRSS {
+			peakRSS = int(v)
 		}
 		for k, v := range o.stats.Known {
 			known[k] += v
@@ -390,6 +401,7 @@ func checkMain(a []string) int {
 		"per_scenario":                 agg,
 		"runs_per_hour":                int(float64(evaluations) / wall * 3600),
 		"shards":                       shards,
+		"peak_resident_mib_per_shard":  peakRSS,
 		"known_findings_observed":      known,
 		"components_real":              []string{"github.com/blugelabs/ice/v2 from /repo working tree (tag verif adds exports only)", "bluge_segment_api", "roaring", "vellum", "klauspost/compress zstd"},
 		"components_stubbed":           []string{"disk: SimReaderAt/SimWriter instead of os.File/mmap", "analysis pipeline: generated segment.Document values", "goroutine choice: baton scheduler", "Bluge index layer: not present (lifecycle scenario stands in where used)"},
@@ -408,7 +420,7 @@ func checkMain(a []string) int {
 		"wall_s":      wall,
 		"violations":  len(violations),
 	}
-	if !hard {
+	if !hard || len(violations) > 0 {
 		b, _ := json.MarshalIndent(ev, "", " ")
 		_ = os.MkdirAll(filepath.Join(verifDir, "evidence"), 0o755)
 		if err := os.WriteFile(filepath.Join(verifDir, "evidence", prop+".json"), b, 0o644); err != nil {
@@ -421,9 +433,15 @@ func checkMain(a []string) int {
 	}
 	fmt.Printf("check %s %s seed=%d: %d cases (%d distinct non-trivial), %d workload executions, %d seam events, %d switches, %.1fs\n",
 		prop, tier, seed, evaluations, nontrivial, subruns, events, switches, wall)
-	if hard {
+	if hard && len(violations) == 0 {
 		fmt.Fprintln(os.Stderr, "HARNESS ERROR: at least one shard failed without a verdict")
 		return 2
+	}
+	if hard {
+		// some shards produced replayable verdicts, others died without one
+		// (typically collateral damage of the same memory exhaustion): the
+		// verdicts stand, the dead shards are reported on stderr only
+		fmt.Fprintln(os.Stderr, "note: at least one shard died without a verdict of its own; the violations below come from the other shards")
 	}
 	if evaluations == 0 && crashed == 0 {
 		fmt.Fprintln(os.Stderr, "HARNESS ERROR: no case was executed")
@@ -511,6 +529,46 @@ func crashVerdict(prop, log, currentFile, replayDir string, seed uint64, shard i
 		return ""
 	}
 	return path
+}
+
+// isolatedVerdict re-executes the case a dead shard was running, alone. It returns
+// a replay path when the case reproducibly blows up (memory watchdog, fatal
+// runtime error or panic with frames of the code under test), "" otherwise.
+func isolatedVerdict(prop, bin, currentFile, replayDir string, seed uint64, shard int) string {
+	if _, err := os.Stat(currentFile); err != nil {
+		return ""
+	}
+	cmd := exec.Command(bin, "replay", currentFile)
+	cmd.Env = append(os.Environ(), "GORACE=halt_on_error=0")
+	out, err := cmd.CombinedOutput()
+	log := string(out)
+	code := 0
+	if ee, ok := err.(*exec.ExitError); ok {
+		code = ee.ExitCode()
+	}
+	if code == 1 && strings.Contains(log, "memory blow-up reproduced") {
+		b, err := os.ReadFile(currentFile)
+		if err != nil {
+			return ""
+		}
+		var rp sim.Replay
+		if json.Unmarshal(b, &rp) != nil || rp.Case == nil {
+			return ""
+		}
+		rp.Verdict = &sim.Fail{Prop: prop, Oracle: "memory", Kind: "memory-blowup", Site: rp.Scenario,
+			Detail: "the shard process died while executing this case; executed again alone in a fresh process the case filled more than 24 GiB of resident memory:\n" + head(log, 1500)}
+		path := filepath.Join(replayDir, fmt.Sprintf("%s-by%s-%s-%d-%d.json", prop, prop, rp.Scenario, seed, shard))
+		o2, _ := json.MarshalIndent(&rp, "", " ")
+		_ = os.MkdirAll(replayDir, 0o755)
+		if os.WriteFile(path, o2, 0o644) != nil {
+			return ""
+		}
+		return path
+	}
+	if code != 0 && code != 1 {
+		return crashVerdict(prop, log, currentFile, replayDir, seed, shard)
+	}
+	return ""
 }
 
 func tail(s string, n int) string {
